@@ -35,14 +35,15 @@ def op_prop(name):
         return "C02"
     if name.startswith("sym."):
         return "C10"
-    if name.startswith("attr.b") or name.startswith("attr.init") or name == "attr.isize":
+    if name.startswith("attr.b") or name.startswith("attr.init") or name == "attr.isize" or name == "ctor.interval":
         return "C19"
     return "C04"
 
 
 RELOAD_PROPS = {"WrongHeader": {"C02", "C01"}, "WrongVersionField": {"C02", "C01"},
                 "WriterDisagreesWithSchemaMapping": {"C02", "C01"}, "ReaderDisagreesWithSchemaMapping": {"C02"},
-                "ReferenceIsACopy": {"C09", "C01"}, "LoadedNotDeepEq": {"C01", "C18"}, "ResaveDiffers": {"C01"}}
+                "ReferenceIsACopy": {"C09", "C01"}, "LoadedNotDeepEq": {"C01", "C18"}, "ResaveDiffers": {"C01"},
+                "EqualCopiesNotDeepEq": {"C18", "C01"}}
 
 
 def result_props(op, obs):
@@ -274,6 +275,10 @@ class Walker:
             d = diff_states(exp_state, obs_state)
             if d:
                 props = {FIELD_PROP.get(f[0], "C04") for f in d}
+                if op["name"] == "reload":
+                    # the writer's bytes matched the spec's message, so the loaded IR differs from it:
+                    # the reader (C02) and the round trip (C01)
+                    props |= {"C01", "C02"}
                 if bad or (op["name"].startswith(("set.", "list.", "symx.")) and
                            any(f[0] in ("mods", "kids", "symx") for f in d)):
                     props.add(op_prop(op["name"]))
